@@ -1,34 +1,48 @@
 #!/usr/bin/env python3
-"""seed_eval.py <seeded-dir> [--tier quick|thorough] [--props C14,C07]
+"""seed_eval.py <seeded-dir> [--tier quick|thorough] [--props C14,C07] [--inplace]
 
-Applies seeded/<id>/patch.diff to /repo, runs the registered check(s), undoes the patch
-(git checkout -- .), and writes seeded/<id>/result.json. Never commits anything to /repo."""
+Runs the registered check(s) against the tree /repo HEAD + seeded/<id>/patch.diff and writes
+seeded/<id>/result.json. Default: the patched tree is a scratch git worktree outside /repo and /verif
+(removed afterwards) and the checks are pointed at it with VERIF_REPO, so that other work reading
+/repo is not disturbed. --inplace: apply the patch to /repo itself, run, and undo it
+(git checkout -- .). Never commits anything to /repo."""
 import argparse, json, os, subprocess, sys, time
 ap = argparse.ArgumentParser()
 ap.add_argument("dir"); ap.add_argument("--tier", default="quick"); ap.add_argument("--props", default="")
 ap.add_argument("--seed", default="1")
+ap.add_argument("--inplace", action="store_true")
 a = ap.parse_args()
 d = os.path.abspath(a.dir)
 meta = json.load(open(os.path.join(d, "meta.json")))
 props = [p for p in a.props.split(",") if p] or [meta["property"]]
-st = subprocess.run(["git", "-C", "/repo", "status", "--porcelain", "--untracked-files=no"], capture_output=True, text=True).stdout.strip()
-if st:
-    sys.exit("/repo has local modifications; refusing")
-r = subprocess.run(["git", "-C", "/repo", "apply", os.path.join(d, "patch.diff")], capture_output=True, text=True)
+wt = None
+if a.inplace:
+    st = subprocess.run(["git", "-C", "/repo", "status", "--porcelain", "--untracked-files=no"], capture_output=True, text=True).stdout.strip()
+    if st:
+        sys.exit("/repo has local modifications; refusing")
+    target = "/repo"
+else:
+    wt = "/tmp/seedeval_%d" % os.getpid()
+    subprocess.run(["git", "-C", "/repo", "worktree", "add", "-q", "--detach", wt, "HEAD"], check=True)
+    target = wt
+r = subprocess.run(["git", "-C", target, "apply", os.path.join(d, "patch.diff")], capture_output=True, text=True)
 if r.returncode != 0:
+    if wt: subprocess.run(["git", "-C", "/repo", "worktree", "remove", "--force", wt])
     sys.exit("patch does not apply: " + r.stderr)
 results = {}
 try:
     for p in props:
         t0 = time.time()
         env = dict(os.environ, VERIF_SEED=a.seed)
+        if wt: env["VERIF_REPO"] = wt
         rr = subprocess.run([sys.executable, os.path.join(os.path.dirname(__file__), "check.py"), p, "--tier", a.tier],
                             capture_output=True, text=True, cwd=os.path.dirname(os.path.dirname(__file__)), env=env)
         lines = [l for l in rr.stdout.splitlines() if l.startswith("VIOLATION") or l.startswith("KNOWN-FINDING")]
         results[p] = dict(rc=rr.returncode, lines=lines, wall=round(time.time() - t0))
         print(p, "rc=%d" % rr.returncode, lines[:2])
 finally:
-    subprocess.run(["git", "-C", "/repo", "checkout", "--", "."], check=True)
+    if wt: subprocess.run(["git", "-C", "/repo", "worktree", "remove", "--force", wt], check=True)
+    else: subprocess.run(["git", "-C", "/repo", "checkout", "--", "."], check=True)
 out = os.path.join(d, "result.json")
 old = json.load(open(out)) if os.path.exists(out) else {}
 old["%s-seed%s" % (a.tier, a.seed)] = results
